@@ -14,7 +14,10 @@ EXTENDS TwigText, Json
 Trace == ndJsonDeserialize("trace.ndjson")
 VARIABLES l, rej
 
+\* (mayfail: a construct the engine may refuse; if it accepts it, the output is judged like any other)
 Accept(o) ==
+  ("mayfail" \in DOMAIN o.aux /\ o.aux.mayfail /\ ~o.ok) \/
+  (
     /\ o.ok
     /\ Len(o.out) >= Len(o.aux.pre) + Len(o.aux.post)
     /\ IsPrefixOf(o.aux.pre, o.out) /\ IsSuffixOf(o.aux.post, o.out)
@@ -22,6 +25,7 @@ Accept(o) ==
        IF o.aux.isd THEN mid = <<100>>
        ELSE IF "twice" \in DOMAIN o.aux /\ o.aux.twice THEN ValidEscape2(o.aux.in, mid)      \* the filter applied to its own output
        ELSE ValidEscape(o.aux.in, mid)
+  )
 
 Init == l = 1 /\ rej = {} /\ TLCSet(1, {}) /\ TLCSet(2, 0)
 Next == /\ l <= Len(Trace)
